@@ -761,10 +761,13 @@ func (e *Engine) notAViolation(f *Obligation, name string, base map[string]Shape
 	if f.Kind == "cover" {
 		return "vacuity guard (the contract's preconditions are no longer satisfiable for this code)"
 	}
-	if e.aliasUsed[f.Fn] || e.aliasUsed[owner] {
+	if f.Verdict == "structural-fail" && f.Kind != "cover" {
+		// structural obligations (lock copies, lock order, atomicity, information flow) do not rest on
+		// the contract's assumptions: unevaluable clauses and renamed variables do not excuse them
+	} else if e.aliasUsed[f.Fn] || e.aliasUsed[owner] {
 		return "names in the contract of " + f.Fn + " were resolved heuristically (a variable or field it names was renamed); the refutation may be an artefact of that"
 	}
-	if evalErrFns[f.Fn] {
+	if evalErrFns[f.Fn] && f.Verdict != "structural-fail" {
 		return "the contract of " + f.Fn + " (or of a function it calls) cannot be evaluated against the current code"
 	}
 	if len(base) == 0 {
@@ -809,8 +812,8 @@ func (e *Engine) notAViolation(f *Obligation, name string, base map[string]Shape
 		} else if cur := e.shapeOf(fn); cur.Loops != b.Loops && (strings.Contains(name, "/loop") || strings.Contains(f.Note, "`loop ")) {
 			return fmt.Sprintf("%s now has %d loops where the baseline has %d: rules and invariants attached to loops by ordinal no longer denote the loops they were written for", k, cur.Loops, b.Loops)
 		}
-		if cur := e.shapeOf(fn); cur.Results != b.Results || cur.NParams != b.NParams {
-			return fmt.Sprintf("the signature of %s changed (%d parameters / %d results, baseline %d / %d): its contract speaks about other values", k, cur.NParams, cur.Results, b.NParams, b.Results)
+		if cur := e.shapeOf(fn); cur.Results != b.Results {
+			return fmt.Sprintf("the result list of %s changed (%d results, baseline %d): its contract speaks about other values", k, cur.Results, b.Results)
 		}
 		if f.Kind == "arith" && !sameShape(b, e.shapeOf(fn)) {
 			return "assume:machine arithmetic treated as mathematical in " + k + " (its structure differs from the baseline; no-overflow obligation " + name + " not discharged)"
